@@ -105,9 +105,9 @@ def build(desc, variant):
     return m
 
 
-_WRONG_SEEDS = [0, 0, 1, 2, 7, 1000, 2 ** 31]      # 0: the literal seed 0
+_WRONG_SEEDS = [0, 0, 0, 1, 2, 7, 1000, 2 ** 31]      # 0: the literal seed 0
 _OP_KINDS = (['run'] * 4 + ['run-extend'] * 3 + ['run-partial-batch'] * 2 + ['remove-store'] * 2 + ['replace-summary'] * 2 + ['replace-distance'] * 3
-             + ['reopen'] * 3 + ['save'] * 2 + ['abandon-reopen'] * 2 + ['wrong-batch-size', 'wrong-seed', 'fresh-sampler-no-seed'])
+             + ['reopen'] * 3 + ['save'] + ['wrong-batch-size', 'wrong-seed', 'wrong-seed', 'fresh-sampler-no-seed'])
 
 
 def _norm_op(t):
@@ -143,7 +143,7 @@ def strat(tier):
         # on-disk pools: close (= save) + reopen the pool after EVERY operation of the history (runs, removals, replacements)
         'reopen_after_edit': st.booleans(),
         # 'abandon': the pool is saved after its first run; a later 'reopen' ends the session WITHOUT saving again and opens that earlier save
-        'reopen_style': st.sampled_from(['close', 'close', 'abandon']),
+        'reopen_style': st.sampled_from(['close', 'close', 'close', 'abandon']),
         # ('disc-param', a parameter feeding only the discrepancy, is not a valid elfi model: observed data would be stochastic)
         'late': st.sampled_from([None, None, None, 'noise-sim']),
         'late_name': st.sampled_from(['zz', 'A0', 'T', 'q']),
@@ -211,7 +211,7 @@ def run_case(case):
         ops = [tuple(o) for o in case['ops']]
         if case.get('reopen_style') == 'abandon' and case['disk']:
             # this style is about sessions that end without saving: its alphabet is runs, extending runs and reopens
-            remap = {'remove-store': 'run-extend', 'replace-distance': 'run-extend', 'replace-summary': 'reopen', 'wrong-seed': 'reopen'}
+            remap = {'remove-store': 'run-extend', 'replace-distance': 'run-extend', 'replace-summary': 'reopen', 'wrong-batch-size': 'reopen'}
             ops = [((remap[k], 1 + a % 3) if remap[k] == 'run-extend' else (remap[k], 0)) if k in remap else (k, a) for k, a in ops]
         for oi, (op, arg) in enumerate(ops):
             octx = 'op %d %r; %s' % (oi, (op, arg), ctx)
@@ -525,7 +525,7 @@ CHECK = Check(
           'that draws after the simulator. Non-trivial = a run that found at least one needed batch in the pool and needed at least one more. '
           'smc part: 2-4 SMC runs (n 3-8, 1-2 thresholds or quantiles, at most two distinct configurations per history) over one in-memory / on-disk pool '
           'storing the simulator and/or summaries/discrepancy, optionally all parameters, optional close+reopen; non-trivial = a re-use with the same configuration.'),
-    parts=[Part('histories', run_case, strategy=strat, examples={'quick': 300, 'thorough': 12000}),
+    parts=[Part('histories', run_case, strategy=strat, examples={'quick': 480, 'thorough': 12000}, shards={'quick': 8, 'thorough': 16}),
            Part('smc', run_smc, strategy=strat_smc, examples={'quick': 96, 'thorough': 2400}, shards={'quick': 8, 'thorough': 16})],
     assumptions=['Rejection with an n_sim objective drives the pool (batch counts are then a function of the configuration)',
                  'on-disk pools live in per-case temporary directories removed afterwards'],
